@@ -23,15 +23,26 @@ def operator_pair_family(rng):
     ops = gen_ast.BINOPS
     for o1, o2 in itertools.product(ops, ops):
         for shape in ("left", "right"):
-            for unary in (False, True):
-                g = gen_ast.Gen(rng, redundant_parens=False)
+            for unary in (False, True, "parenthesised"):
+                g = gen_ast.Gen(rng, redundant_parens=False) if unary != "parenthesised" else _ParenUnaryGen(rng, redundant_parens=False)
                 a, b, c = Name("a"), Name("b"), Name("c")
                 if unary:
                     a, b, c = Unary("-", a), Unary("NOT", b), Unary("-", c)
                 e = Bin(o2, Bin(o1, a, b), c) if shape == "left" else Bin(o1, a, Bin(o2, b, c))
                 lx, tree = wrap_program(g, [Assign(Name("r"), e)])
-                out.append((lx, tree, "ops:%s:%s:%s%s" % (o1, o2, shape, ":unary" if unary else "")))
+                out.append((lx, tree, "ops:%s:%s:%s%s" % (o1, o2, shape, "" if not unary else ":unary" if unary is True else ":unary-in-parentheses")))
     return out
+
+
+class _ParenUnaryGen(gen_ast.Gen):
+    """writes every unary operand in parentheses of its own: `( - a ) ** b` -- redundant for the grammar, and the spelling
+    that tells a renderer relying on the unary operator's binding from one that does not"""
+
+    def spell(self, e, minlevel):
+        inner = e.lex(self)
+        if isinstance(e, Unary) or e.level < minlevel:
+            return [gen_ast.sym("(")] + inner + [gen_ast.sym(")")]
+        return inner
 
 
 def statement_nesting_family(rng):
